@@ -264,7 +264,7 @@ def shards(tier, seed):
     big = tier == "thorough"
     out = [("constants", "shard_constants", {})]
     for fmt in WSELF.available():
-        out.append((f"units_{fmt}", "shard_format", {"fmt": fmt, "max_examples": 400 if big else 80}))
+        out.append((f"units_{fmt}", "shard_format", {"fmt": fmt, "max_examples": 1500 if big else 80}))
     return out
 
 
